@@ -104,13 +104,14 @@ def valuation(t, shape, k):
     return np.asarray(vals, dtype=NP[t]).reshape(shape)
 
 
-def concrete_shape(shape, bind):
+def concrete_shape(shape, bind, name=""):
+    """Unnamed dims are bound per input and position: keys '?<input name><index>', then '?<index>', then '?'."""
     out = []
     for j, d in enumerate(shape):
         if isinstance(d, int):
             out.append(d)
         elif d is None:
-            out.append(int(bind.get(f"?{j}", bind.get("?", 2))))
+            out.append(int(bind.get(f"?{name}{j}", bind.get(f"?{j}", bind.get("?", 2)))))
         else:
             out.append(int(bind.get(d, 2)))
     return out
@@ -131,7 +132,7 @@ class Built:
 
     def feeds(self, k, bind=None):
         bind = bind or {}
-        d = {n: valuation(t, concrete_shape(s, bind), k) for (n, t, s) in self.true_inputs}
+        d = {n: valuation(t, concrete_shape(s, bind, n), k) for (n, t, s) in self.true_inputs}
         d.update(self.fixed)
         return d
 
@@ -574,7 +575,7 @@ def _table():
     _add("SequenceConstruct", "xc", ("F2",), "Q", ["P", [f([[7.0, 8.0, 9.0]]), f([[1.0, 2.0, 3.0], [4.0, 5.0, 6.0]])]],
          roles=["other"])
     _add("SequenceConstruct", "x", ("F2",), "Q", ["P"])
-    SPL = [i(1), i(2), i([1, 1]), i([2, 1]), i([1, 2]), i(3), i(0), i([3])]
+    SPL = [i(1), i(2), i([1, 1]), i([2, 1]), i([1, 2]), i(3), i([3])]  # scalar 0 crashes onnx shape inference (SIGFPE)
     for tag, at in (("d", {}), ("a1", {"axis": 1}), ("a1k0", {"axis": 1, "keepdims": 0}), ("am1", {"axis": -1}),
                     ("a0k0", {"axis": 0, "keepdims": 0})):
         _add("SplitToSequence", "xs." + tag, ("F2", "F3"), "Q", ["P", SPL], roles=["split"], attrs=at)
